@@ -388,6 +388,30 @@ fn acc_tv(v: &toml::Value) -> String {
             })
             .collect();
         s.push_str(&format!("{{{}}}", parts.join(",")));
+        // the double-ended iterators of toml::Map: every one of them read from the back, and alternately from both ends
+        let back: Vec<String> = t.iter().rev().map(|(k, _)| hex(k.as_bytes())).collect();
+        let back_keys: Vec<String> = t.keys().rev().map(|k| hex(k.as_bytes())).collect();
+        let back_vals: Vec<&str> = t.values().rev().map(|x| x.type_str()).collect();
+        let fwd_vals: Vec<&str> = t.values().map(|x| x.type_str()).collect();
+        let back_owned: Vec<String> = t.clone().into_iter().rev().map(|(k, _)| hex(k.as_bytes())).collect();
+        let mut tm = t.clone();
+        let back_mut: Vec<String> = tm.iter_mut().rev().map(|(k, _)| hex(k.as_bytes())).collect();
+        assert!(back == back_keys && back == back_owned && back == back_mut, "Map iterators disagree when read from the back");
+        assert!(back_vals.iter().rev().eq(fwd_vals.iter()), "Map::values read from the back is not the reverse");
+        assert_eq!(t.iter().len(), t.len());
+        let mut it = t.iter();
+        let mut alt = Vec::new();
+        loop {
+            match it.next() {
+                Some((k, _)) => alt.push(hex(k.as_bytes())),
+                None => break,
+            }
+            match it.next_back() {
+                Some((k, _)) => alt.push(hex(k.as_bytes())),
+                None => break,
+            }
+        }
+        s.push_str(&format!("r={}x={}", plus_join(back), plus_join(alt)));
     }
     s
 }
